@@ -1009,14 +1009,14 @@ func c09CloseOnce(c *core.Ctx) {
 				return 0
 			}
 			ok := g.GuardedBy(cl.Loc, casWon)
-			if !ok && u.Parent != nil {
-				for _, d := range u.Parent.CallsTo("sync.(*Once).Do") {
-					if closureArg(u.Parent, d, 0) == u {
+			if !ok && u.Owner() != nil {
+				for _, d := range u.Owner().CallsTo("sync.(*Once).Do") {
+					if closureArg(u.Owner(), d, 0) == u {
 						ok = true
 					}
 				}
-				for _, d := range u.Parent.CallsTo("runtime.AddCleanup") {
-					if closureArg(u.Parent, d, 1) == u && u.Parent.Key == "utils.(*Timer).Unref" {
+				for _, d := range u.Owner().CallsTo("runtime.AddCleanup") {
+					if closureArg(u.Owner(), d, 1) == u && u.Owner().Key == "utils.(*Timer).Unref" {
 						ok = true
 					}
 				}
